@@ -267,6 +267,8 @@ pub fn run_job(job: &Job) -> JobResult {
     match job.spec["part"].as_str() {
         Some("tamper") => {
             let tj: TamperJob = serde_json::from_value(job.spec["job"].clone()).expect("tamper job");
+            // the loader logs what it reads: with verbose logging those statements format untrusted values
+            crate::node::install_verbose_logging();
             tamper(&tj, &mut res);
         }
         _ => return crate::props::schedp::run_job(job),
